@@ -157,7 +157,8 @@ func strExecSlice(s *String, values []r.Element) (r.Element, error) {
 	if err := ValidateExactParams(values, "number", "number"); err != nil {
 		return nil, err
 	}
-	ss := s.GetValue()
+	// indexes count characters (as 长度 and 字符组 do), not bytes
+	ss := []rune(s.GetValue())
 	startIdx := int(values[0].(*Number).GetValue())
 	endIdx := int(values[1].(*Number).GetValue())
 	if startIdx < 0 {
@@ -180,7 +181,7 @@ func strExecSlice(s *String, values []r.Element) (r.Element, error) {
 	}
 
 	subString := ss[startIdx-1 : endIdx]
-	return NewString(subString), nil
+	return NewString(string(subString)), nil
 }
 
 func strExecStripWhitespaces(s *String, value []r.Element) (r.Element, error) {
